@@ -401,6 +401,18 @@ def run(ctx: Ctx) -> None:
                              "a descent that receives an empty stack never finds its callee on it: a cycle through this call is analysed for ever (RecursionError instead of CIRCULAR_CALL)")
     rep.floor("C11.R11", n11, 3)
 
+    # ---- R13: the functions of every accepted module are followed ----
+    if rep.prop == "C11":
+        from . import c14 as _c14
+        rep.rule("C11.R13", "as C14.R1-R13: both passes follow the functions of exactly the accepted modules (a module registered under another name than its own is never "
+                            "followed: cycles inside it, a nested dds.eval or an overlapping keep are executed instead of rejected)")
+        before = len(rep.obligations)
+        _c14.run(ctx)
+        for o in rep.obligations[before:]:
+            o.rule = "C11.R13/" + o.rule
+        for k in [k for k in rep.floors if k.startswith("C14.")]:
+            rep.floors["C11.R13/" + k] = rep.floors.pop(k)
+
     # ---- R12: the path splitter keeps the whole remainder ----
     rep.rule("C11.R12", "abstract evaluation of the path splitter used by the overlap detector: '/s1/s2/../sn' splits into s1 and '/s2/../sn' for every depth (a truncated "
                         "remainder hides overlaps below the second level)")
